@@ -4,6 +4,7 @@ import (
 	"fmt"
 	"strings"
 	"sync"
+	"sync/atomic"
 	"testing"
 
 	"pgregory.net/rapid"
@@ -14,6 +15,9 @@ import (
 	"verif/internal/rt"
 	"verif/internal/stats"
 )
+
+// inconclusive: some method failed only because a stream operation timed out
+var inconclusive atomic.Bool
 
 // Judge compares the observation of one scripted call with the design.
 type Judge func(d *m.Design, s *m.Service, meth *m.Method, c *Case, obs *harness.Obs) string
@@ -77,6 +81,9 @@ func RunDesigns(t *testing.T, prop, tag string, judge Judge, nontrivial func(met
 	}
 	wg.Wait()
 	if failures > 0 {
+		if inconclusive.Load() {
+			t.Fatalf("INCONCLUSIVE: %d streaming method(s) could not be judged (a stream operation timed out)", failures)
+		}
 		t.Fatalf("%d streaming method(s) violate %s", failures, prop)
 	}
 }
@@ -116,8 +123,13 @@ func checkMethod(t *testing.T, prop string, b *rt.Built, s *m.Service, meth *m.M
 			if c.Spec.View != "" {
 				stats.Class("stream:view-chosen-by-service")
 			}
+			if strings.HasPrefix(msg, "SKIP") {
+				stats.Class("skipped:other-direction-failed-first")
+				msg = ""
+			}
 			if msg != "" {
 				if strings.HasPrefix(msg, "INCONCLUSIVE") {
+					inconclusive.Store(true)
 					rt_.Fatalf("%s", msg)
 				}
 				last = &replayRec{Service: s.Name, Method: meth.Name, Case: c, Message: msg}
